@@ -2,6 +2,7 @@ import SpecVerif.Proofs.Lemmas.ArmaEst
 import SpecVerif.Proofs.C08
 import SpecVerif.Proofs.C09
 import SpecVerif.Proofs.C12
+import SpecVerif.Proofs.C14
 import SpecVerif.Proofs.Lemmas.SchurCohn
 /-
   C15 — the moving-average estimator `ma` (`maEstimate`), the ARMA estimator `arma_estimate`
@@ -30,8 +31,11 @@ import SpecVerif.Proofs.Lemmas.SchurCohn
   (`Proofs/Lemmas/SchurCohn.lean`, through `C12.yule_stable`); `ma_invertible_order1` is the special
   case `Q = 1`.  Consequently `B(ω^k) ≠ 0` on the whole frequency grid and `pma` is strictly positive
   for every `Q` (`ma_psd_pos`).
-  NOT proved (outside the targets): the correctness of the Gauss–Jordan elimination (`lstsq` returns
-  the minimiser) — only the shape of its output is used.
+  The correctness of the Gauss–Jordan elimination behind `lstsq` is proved in
+  `Proofs/Lemmas/GaussJordan.lean` (C14, section 6) for a lawful pivot test (`GJL.LawfulIsZero`:
+  `isZero x = true ↔ x = 0`); `arma_ar_ls_optimal_solver` (section 8) uses it to discharge the solver
+  contract of `arma_ar_ls_optimal`.  Every other statement only uses the shape of the solver's output
+  and holds for an arbitrary pivot test.
 -/
 namespace SpecVerif.C15
 open Finset SpecVerif SpecVerif.ArmaL SpecVerif.ArmaEstL
@@ -516,6 +520,35 @@ theorem arma_ar_ls_optimal (R : List F) (P lag : ℕ) (a a' : ℕ → F)
   refine ⟨hp, ?_⟩
   rw [hp]
   exact le_add_of_nonneg_right (Finset.sum_nonneg (fun i _ => by positivity))
+
+/-- **the AR part minimises the modified Yule–Walker residual energy, no solver hypothesis** (`P = Q`,
+lawful pivot test `GJL.LawfulIsZero`; the Gauss–Jordan elimination of the model is verified in
+`Proofs/Lemmas/GaussJordan.lean`): if `arma_estimate` succeeds with AR part `a`, then with `R` the unbiased
+lags, for every `a'`:
+`Σ_k |r(k) + Σ_j a'_j r(k-1-j)|² = Σ_k |r(k) + Σ_j a_j r(k-1-j)|² + ‖X_c (a' - a)‖²`, in particular the AR
+part has the smallest residual energy over the lags `k = P+1..lag`. -/
+theorem arma_ar_ls_optimal_solver [IsZero F] [GJL.LawfulIsZero F] (x : List F) (P lag : ℕ)
+    (a b : List F) (rho : F) (h : armaEstimate x P P lag = .ok (a, b, rho)) (a' : ℕ → F) :
+    ∑ i ∈ range (lag - P), ‖nth (correlation x x lag .unbiased 1) (i + P + 1)
+        + ∑ j ∈ range P, a' j * nth (correlation x x lag .unbiased 1) (i + P + 1 - 1 - j)‖ ^ 2
+      = ∑ i ∈ range (lag - P), ‖nth (correlation x x lag .unbiased 1) (i + P + 1)
+          + ∑ j ∈ range P, nth a j * nth (correlation x x lag .unbiased 1) (i + P + 1 - 1 - j)‖ ^ 2
+        + ∑ i ∈ range (lag - P), ‖∑ j ∈ range P,
+            mentry (corrmtx (armaLagSeq (correlation x x lag .unbiased 1) P P lag) P .covariance)
+              i (j + 1) * (a' j - nth a j)‖ ^ 2
+    ∧ ∑ i ∈ range (lag - P), ‖nth (correlation x x lag .unbiased 1) (i + P + 1)
+          + ∑ j ∈ range P, nth a j * nth (correlation x x lag .unbiased 1) (i + P + 1 - 1 - j)‖ ^ 2
+        ≤ ∑ i ∈ range (lag - P), ‖nth (correlation x x lag .unbiased 1) (i + P + 1)
+          + ∑ j ∈ range P, a' j * nth (correlation x x lag .unbiased 1) (i + P + 1 - 1 - j)‖ ^ 2 := by
+  obtain ⟨_, _, _, ⟨e, he⟩, _⟩ := (armaEstimate_ok_iff x P P lag a b rho).mp h
+  have hn := (C14.lsFit_normalEq _ _ P a e he).1
+  rw [armaLagSeq_length] at hn
+  apply arma_ar_ls_optimal (correlation x x lag .unbiased 1) P lag (nth a) a'
+  intro c hc1 hcP
+  have := hn (c - 1) (by omega)
+  have ec : c - 1 + 1 = c := by omega
+  simp only [LSL.colR, LSL.col0, LSL.lsRes, ec] at this
+  exact this
 
 /-- **end to end** (`parma` on real or complex data): if `arma_estimate` succeeds, the residual of its
 AR part is not identically zero, the sampling frequency is a positive real and neither returned
